@@ -6,7 +6,7 @@ from vf.fcomp import all_sources
 from vf.props.c07 import _collect
 
 EP = [["reset"], ["step"], ["step_override"], ["step"], ["step"], ["stop"]]
-TWO = [["reset"], ["step"], ["step"], ["stop"], ["run"], ["run"], ["run"], ["stop"]]
+TWO = [["reset"], ["step"], ["step"], ["stop"], ["run"], ["run"], ["run"], ["stop"], ["reset"], ["step"], ["stop"], ["reset_carry"], ["step"], ["step"], ["stop"]]
 
 
 def run(tier, rep):
